@@ -110,8 +110,125 @@ def placement(obj, doc, vals):
     return out
 
 
+IN_REQ = ["molecule", "driver", "model"]
+IN_OPT = ["schema_name", "schema_version", "keywords", "extras", "id", "protocols", "provenance"]
+OUT_REQ = ["provenance", "properties", "success", "return_result"]
+OUT_OPT = ["error", "stderr", "stdout", "wavefunction"]
+IO_UNKNOWN = ["x_custom_in"]
+
+
+def io_values(kind, natom):
+    mol = values(natom)
+    moldoc = {k: mol[k] for k in TOPOLOGY + SHOULD + ["name", "real"]}
+    v = {"schema_name": "qcschema_" + kind, "schema_version": 1, "molecule": moldoc, "driver": ["energy", "gradient", "hessian", "properties"][natom % 4],
+         "model": {"method": "B3LYP", "basis": "def2-tzvp"}, "keywords": {"scf_type": "df", "nested": {"levels": [1, 2, {"deep": True}]}},
+         "extras": {"note": "x", "list": [1.5, "a", None]}, "id": "job-17", "protocols": {"wavefunction": "orbitals_and_eigenvalues", "stdout": False},
+         "provenance": {"creator": "independent generator", "version": "1", "routine": "qcdoc"}, "x_custom_in": {"anything": [1, 2]},
+         "properties": {"calcinfo_nbasis": 7 + natom, "scf_iterations": 3, "nuclear_repulsion_energy": 1.25}, "success": bool(natom % 2),
+         "return_result": [0.1 * natom, -0.2, 0.3], "error": {"error_type": "convergence_error", "error_message": "no"},
+         "stderr": "text on stderr", "stdout": "text on stdout", "wavefunction": {"basis": "x", "restricted": True}}
+    return v
+
+
+def placement_io(obj, kind, keys, vals):
+    ex = obj.extra or {}
+    out = {}
+    for k in keys:
+        want = vals[k]
+        if k == "molecule":
+            ok = _eq(obj.atnums, [Z[s] for s in want["symbols"]]) and _eq(obj.atcoords, np.array(want["geometry"]).reshape(-1, 3)) \
+                and obj.title == want["name"] and _eq(obj.charge, want["molecular_charge"])
+            out[k] = "attr:atnums" if ok else "wrong"
+        elif k == "model":
+            out[k] = "attr:lot" if (obj.lot == want["method"] and obj.obasis_name == want["basis"]) else "wrong"
+        elif k == "protocols":
+            got = _walk(ex, "input.protocols")
+            exp = {"keep_" + a: b for a, b in want.items()}
+            out[k] = "extra:input.protocols" if got == exp else ("missing" if got is None else "wrong")
+        elif k in ("schema_name", "schema_version", "provenance"):
+            out[k] = "extra:input." + k if _walk(ex, "input." + k) is not None else "missing"
+        elif k in ("driver", "keywords", "extras", "id"):
+            got = _walk(ex, "input." + k)
+            out[k] = "extra:input." + k if _eq(got, want) else ("missing" if got is None else "wrong")
+        elif k in IO_UNKNOWN:
+            got = _walk(ex, "input.unparsed." + k)
+            out[k] = "extra:input.unparsed." + k if _eq(got, want) else ("missing" if got is None else "wrong")
+        else:
+            got = _walk(ex, "output." + k)
+            out[k] = "extra:output." + k if _eq(got, want) else ("missing" if got is None else "wrong")
+    return out
+
+
 def execute(task):
-    keys, natom = task
+    keys, natom = task[:2]
+    kind = task[2] if len(task) > 2 else "molecule"
+    if kind != "molecule":
+        return execute_io(kind, keys, natom)
+    ev = _execute_molecule(keys, natom)
+    ev["kind"] = "molecule"
+    return ev
+
+
+def execute_io(kind, keys, natom):
+    from iodata import api
+    from iodata.utils import DumpError, LoadError
+    from .digest import deep, diff, public_state
+    vals = io_values(kind, natom)
+    doc = {k: vals[k] for k in keys}
+    ev = {"op": "QCDoc", "kind": kind, "keys": sorted(keys), "natom": natom, "out": "loaded", "warned": False, "placed": {k: "n/a" for k in keys},
+          "redump": "n/a", "reload_same": True, "drift": [], "msg": ""}
+    tmp = tempfile.mkdtemp(prefix="qcdoc_")
+    try:
+        p1 = os.path.join(tmp, "d1.json")
+        with open(p1, "w") as fh:
+            json.dump(doc, fh)
+        with warnings.catch_warnings():
+            warnings.simplefilter("ignore")
+            try:
+                obj = api.load_one(p1, fmt="json_qcschema")
+            except LoadError as exc:
+                ev["out"] = "LoadError"
+                ev["msg"] = str(exc)[:120].replace(tmp, "")
+                return ev
+            except Exception as exc:  # noqa: BLE001
+                ev["out"] = "other:" + type(exc).__name__
+                ev["msg"] = str(exc)[:120]
+                return ev
+            if (obj.extra or {}).get("schema_name") != "qcschema_" + kind:
+                ev["out"] = "loaded-as:" + str((obj.extra or {}).get("schema_name"))
+                return ev
+            ev["placed"] = placement_io(obj, kind, keys, vals)
+            p2 = os.path.join(tmp, "d2.json")
+            try:
+                api.dump_one(obj, p2, fmt="json_qcschema")
+                ev["redump"] = "ok"
+            except DumpError as exc:
+                ev["redump"] = "DumpError:" + repr(exc.__cause__ or exc)[:60]
+                return ev
+            except Exception as exc:  # noqa: BLE001
+                ev["redump"] = "other:" + type(exc).__name__
+                return ev
+            try:
+                obj2 = api.load_one(p2, fmt="json_qcschema")
+            except Exception as exc:  # noqa: BLE001
+                ev["reload_same"] = False
+                ev["drift"] = ["reload:" + type(exc).__name__ + ":" + str(exc.__cause__ or exc)[:60].replace(tmp, "")]
+                return ev
+        d = diff(deep(public_state(obj)), deep(public_state(obj2)))
+        allowed = ("provenance", "schema_version", "schema_name")
+        drift = sorted({x for x in d if not any(a in x for a in allowed)})
+        ev["drift"] = [x[:80] for x in drift][:6]
+        ev["reload_same"] = not drift
+        return ev
+    except Exception as exc:  # noqa: BLE001
+        ev["out"] = "harness:" + type(exc).__name__
+        ev["msg"] = str(exc)[:160]
+        return ev
+    finally:
+        shutil.rmtree(tmp, ignore_errors=True)
+
+
+def _execute_molecule(keys, natom):
     from iodata import api
     from iodata.utils import DumpError, LoadError, LoadWarning
     from .digest import deep, diff, public_state
@@ -188,5 +305,15 @@ def plan(rng, thorough):
     tasks = []
     for i, d in enumerate(docs):
         if consistent(d):
-            tasks.append((sorted(set(d)), [1, 2, 3, 5, 9][i % 5]))
+            tasks.append((sorted(set(d)), [1, 2, 3, 5, 9][i % 5], "molecule"))
+    # input and output documents: schema name given (the kind of an unnamed document is guessed from its keys, not tested here)
+    for kind in ("input", "output"):
+        req = IN_REQ + ["schema_name"] + (OUT_REQ if kind == "output" else [])
+        opt = [k for k in IN_OPT if k not in req] + IO_UNKNOWN + (OUT_OPT if kind == "output" else [])
+        sets = [list(req), req + opt] + [req + [k] for k in opt] + [req + [x for x in opt if x != k] for k in opt]
+        sets += [[x for x in req + opt if x != k] for k in req if k != "schema_name"]
+        for _ in range(60 if not thorough else 1500):
+            sets.append([k for k in req if k == "schema_name" or rng.random() < 0.93] + [k for k in opt if rng.random() < 0.5])
+        for i, d in enumerate(sets):
+            tasks.append((sorted(set(d)), [1, 2, 3, 4][i % 4], kind))
     return tasks
